@@ -238,7 +238,7 @@ def evaluate(d, base, meta, rk, ck):
 # ----------------------------------------------------------------------------------------------
 
 def row_keys(N):
-    out = [('int', i) for i in range(-N - 1, N + 1)]
+    out = [('int', i) for i in range(-N - 1, N + 1)] + [('npint', i) for i in range(-N, N)]      # e.g. what np.argmax returns
     vals = [None] + list(range(-N - 1, N + 2))
     for a in vals:
         for b in vals:
@@ -337,11 +337,13 @@ def run_job(job):
 
 @st.composite
 def _rowkey(draw, N, keep2d=False):
-    kinds = ['slice', 'ilist', 'bmask'] if keep2d else ['int', 'slice', 'ilist', 'bmask', 'blist', 'ell', 'slice', 'ilist']
+    kinds = ['slice', 'ilist', 'bmask'] if keep2d else ['int', 'npint', 'slice', 'ilist', 'bmask', 'blist', 'ell', 'slice', 'ilist']
     kind = draw(st.sampled_from(kinds))
     idx = st.integers(-N - 1, N) if not keep2d else st.integers(-N, N - 1)
     if kind == 'int':
         return ['int', draw(idx)]
+    if kind == 'npint':
+        return ['npint', draw(st.integers(-N, N - 1))] if N else ['int', 0]
     if kind == 'slice':
         v = st.one_of(st.none(), st.integers(-N - 2, N + 2))
         return ['slice', [draw(v), draw(v), draw(st.sampled_from([None, 1, -1, 2, -2, 3]))]]
